@@ -221,15 +221,22 @@ class C01(RunSpec):
             p.update({"leaf": _cycle(CMA_ENGINES, idx // 16), "fams": ["face", "linear", "face"], "levels": [2, 2, 3], "gsc": "melimit", "free_lscs": True,
                       "root": _cycle(["sea", "de", "shade", "lhs"], idx // 16), "allow_cutoff": False})
             p.pop("gscs", None)
+        if idx % 16 in (5, 13):
+            # result caching switched on, box bounds that use the full mantissa, engines that land exactly on a face (CMA-ES' bound
+            # repair, L-BFGS-B's projection): a cache key / canonicalisation of the point must not move what the objective is given
+            p.update({"leaf": _cycle(["cma", "cma_warm", "cma_stds"] if idx % 16 == 13 else ["local", "local_maxiter"], idx // 16), "fams": ["face", "linear"], "levels": [2, 2, 3], "box": "fullprec", "cached": True, "free_lscs": True, "allow_cutoff": False,
+                      "root": _cycle(["sea", "de", "shade", "lhs"], idx // 16)})
         if idx % 16 == 15:
             p = {"kind": "minimize", "box": p["box"], "fams": p["fams"], "dim": (2, 5), "same_callable_two_boxes": bool((idx // 16) % 2)}
         return p
 
     def make_case(self, seed, idx, tier):
         d = super().make_case(seed, idx, tier)
+        if idx % 16 in (5, 13) and d.get("kind") == "tree":
+            d["use_cache"] = True
         if idx % 16 == 3 and d.get("kind") == "tree" and d["levels"][-1]["engine"].startswith("local"):
             d["levels"][-1]["method"] = "l-bfgs-b"
-        if idx % 16 == 11 and d.get("kind") == "tree" and d["levels"][-1]["engine"] in CMA_ENGINES:
+        if idx % 16 in (11, 13) and d.get("kind") == "tree" and d["levels"][-1]["engine"] in CMA_ENGINES:
             d["levels"][-1]["gens"] = 25
             d["levels"][-1]["lsc"] = {"k": "dontstop"}
             d["gsc"] = {"k": "melimit", "n": 14}
@@ -247,6 +254,8 @@ class C01(RunSpec):
         fl += [(f"box.{b}", 1, "box class") for b in gen.BOX_CLASSES]
         fl += [("C01.on_face.LocalDeme metaepoch", 1, "a local search touched a face"), ("C01.evals_checked", 1000, "evaluations observed")]
         fl += [("C01.cma_deme_ended_by_cma_es_own_stop_with_the_distribution_mean_outside_the_box", 2, "CMA deme that ran to CMA-ES' own termination with its distribution mean outside the box")]
+        fl += [("C01.within_1e-12_of_a_face_with_result_cache.CMADeme metaepoch", 1, "CMA-ES evaluated a point within 1e-12 of a face of a full-precision box with result caching on"),
+               ("C01.within_1e-12_of_a_face_with_result_cache.LocalDeme metaepoch", 1, "a local search evaluated a point within 1e-12 of a face of a full-precision box with result caching on")]
         fl += [("local_method_name_in_lower_case", 2, "local level whose method name is given in lower case")]
         fl += [("retargeted_configurations_completed", 2, "trees built from a deep-copied, re-targeted configuration"), ("minimize_after_same_callable_on_another_box", 1, "minimize() of a callable that was minimised over another box before")]
         return fl
